@@ -324,3 +324,20 @@ Theorem C10_mixture_sources_centring_refuted :
      space_shifts (map (fun x => [x]) (center ss)) M <> space_shifts (map (fun x => [x]) ss) M).
 Proof. split; [exact script_mixture_sources | exact mixture_sources_centring_moves_space_shifts]. Qed.
 Print Assumptions C10_mixture_sources_centring_refuted.
+
+(** Whatever branch of the helper and whatever strip_col a model wires: every row of the mixing matrix (B·betas)ᵀ and
+    every individual space shift sources·(B·betas)ᵀ is orthogonal to the direction d for the metric of the branch. *)
+Theorem C10_mixing_orthogonal_branches :
+  forall (j : nat) (d : list R) (g : R) (G1 : list R) (G2 betas sources : matrix) (k : nat),
+  (S (length betas) <= length d)%nat ->
+  (gen_ortho_pre_0d j d g -> nth j (vscale g d) 0 <> 0 ->
+     inner_0d g (nth k (mixing_matrix (gen_ortho_basis_0d j d g) betas) []) d = 0 /\
+     inner_0d g (nth k (space_shifts sources (mixing_matrix (gen_ortho_basis_0d j d g) betas)) []) d = 0) /\
+  (gen_ortho_pre_1d j d G1 -> nth j (vmul G1 d) 0 <> 0 ->
+     inner_1d G1 (nth k (mixing_matrix (gen_ortho_basis_1d j d G1) betas) []) d = 0 /\
+     inner_1d G1 (nth k (space_shifts sources (mixing_matrix (gen_ortho_basis_1d j d G1) betas)) []) d = 0) /\
+  (gen_ortho_pre_2d j d G2 -> nth j (matvec G2 d) 0 <> 0 ->
+     inner_2d G2 (nth k (mixing_matrix (gen_ortho_basis_2d j d G2) betas) []) d = 0 /\
+     inner_2d G2 (nth k (space_shifts sources (mixing_matrix (gen_ortho_basis_2d j d G2) betas)) []) d = 0).
+Proof. exact gen_branches_mixing_space_shifts. Qed.
+Print Assumptions C10_mixing_orthogonal_branches.
